@@ -86,6 +86,30 @@ def replay_regressions(prop, m):
     return out
 
 
+def show_replay(path):
+    """Print the recorded history as plain Python against the public API (a starting point for a hand reproduction)."""
+    from . import topy
+    payload = json.load(open(path, encoding="utf-8"))
+    print(f"# {payload.get('signature')}  (property {payload.get('property')}, config {payload.get('config', payload.get('kind'))})")
+    prog = payload["program"]
+    if isinstance(prog, dict):
+        print("# canonical delivery order:")
+        print(topy.c13_program(prog, payload.get("canonical") or []))
+        if payload.get("merge"):
+            print("# the order that differs:")
+            print(topy.c13_program(prog, payload["merge"]))
+    else:
+        print(topy.program(prog, payload.get("victim")))
+    for k in ("differs_on", "observed", "expected", "plan"):
+        if k in payload and k != "plan":
+            print(f"# {k}: {json.dumps(payload[k])[:600]}")
+    if payload.get("plan"):
+        pl = payload["plan"]
+        print(f"# simulated with: granularity {pl.get('gran')}, faults {pl.get('faults')}, stall {pl.get('stall')}, "
+              f"{len(payload.get('trace') or [])} recorded scheduling decisions (replay with ./check replay {path})")
+    return 0
+
+
 def run_replay(path):
     payload = json.load(open(path, encoding="utf-8"))
     prop = payload["property"]
@@ -112,6 +136,8 @@ def main(argv=None):
     a = ap.parse_args(argv)
     if a.what == "replay":
         return run_replay(a.arg)
+    if a.what == "show":
+        return show_replay(a.arg)
     if a.what == "selftest":
         from . import selftest
         return selftest.main(a.arg or "all", a.tier)
